@@ -138,6 +138,167 @@ def _alpha_depth_rule(ctx, blp):
         ctx.bad(R, "parse_header|not-evaluable", "%s:%d" % (ph.file, let.get("ln") or 0), "alpha_bits expression not evaluable: %s" % e, "shape changed")
 
 
+def _alpha_plane_rule(ctx, blp):
+    """palettised (RAW1) alpha planes: the packer lays pixel k's W-bit alpha at bit W*(k mod 8/W) of byte k div (8/W) (shift counter
+    advanced by W per pixel, new byte at 8, value OR-ed in shifted by the counter); the unpacker must read it from there.  The packer's
+    layout is derived from its loop structure, the unpacker's expressions are evaluated for pixels 0..15 over bytes packed that way"""
+    R = ctx.rule("C16.alpha-plane-unpacker-reads-the-packers-layout", "for alpha depths 1, 4 and 8: the bit position index_alpha_<W>bit gives pixel k (from its counter step, reset and shift) is where raw1_to_image's branch for that depth reads pixel k's alpha (k in 0..16; 4 byte patterns)", floor=3)
+    from .c10 import _ival, _bval, _NoEval
+    dec = next((x for x in blp.fn_list if x.hir and x.kind != "Closure" and norm(x.path).endswith("convert::raw1::raw1_to_image")), None)
+    if dec is None:
+        ctx.bad(R, "raw1_to_image|missing", "-", "function not found", "anchor gone")
+        return
+    ctx.saw_fn(dec)
+    for W in (1, 4, 8):
+        enc = next((x for x in blp.fn_list if x.hir and x.kind != "Closure" and norm(x.path).endswith("convert::raw1::index_alpha_%dbit" % W)), None)
+        if enc is None:
+            ctx.bad(R, "index_alpha_%dbit|missing" % W, "-", "function not found", "anchor gone")
+            continue
+        ctx.saw_fn(enc)
+        key = "alpha%d" % W
+        # --- packer layout from structure
+        if W == 8:
+            pushes = [n for n in hirq.walk(enc.hir["body"]) if n.get("k") == "mcall" and n["m"] == "push" and n.get("args")]
+            if len(pushes) != 1 or not re.search(r"\[3\]$", hirq.render(pushes[0]["args"][0])):
+                ctx.bad(R, key + "|packer-shape", enc.where, "8-bit packer does not push pixel[3] once per pixel", "shape changed")
+                continue
+            step, lsb_first = 8, True
+        else:
+            ors = [n for n in hirq.walk(enc.hir["body"]) if n.get("k") == "assignop" and n.get("op") in ("|=", "BitOr", "|") and hirq.strip(n["l"]).get("k") == "index"]
+            if len(ors) != 1:
+                ctx.bad(R, key + "|packer-shape", enc.where, "no single `res[i] |= ..` found (%d)" % len(ors), "shape changed")
+                continue
+            sh = next((x for x in hirq.walk(ors[0]["r"]) if x.get("k") == "bin" and x["op"] == "<<" and hirq.strip(x["r"]).get("k") == "path"), None)
+            cnt = hirq.strip(sh["r"])["res"].get("local") if sh is not None else None
+            adds = [n for n in hirq.walk(enc.hir["body"]) if n.get("k") == "assignop" and n.get("op") in ("+=", "Add", "+") and hirq.strip(n["l"]).get("k") == "path" and hirq.strip(n["l"])["res"].get("local") == cnt]
+            rst = next((n for n in hirq.find(enc.hir["body"], "if") if cnt and re.fullmatch(r"\(%s >= 8\)|\(8 <= %s\)|\(%s == 8\)" % (cnt, cnt, cnt), hirq.render(n["c"]))
+                        and any(a.get("k") == "assign" and hirq.render(a["l"]) == cnt and hirq.lit_int(hirq.strip(a["r"])) == 0 for a in hirq.walk(n["then"]))
+                        and any(a.get("k") == "mcall" and a["m"] == "push" for a in hirq.walk(n["then"]))), None)
+            if cnt is None or len(adds) != 1 or hirq.lit_int(hirq.strip(adds[0]["r"])) is None or rst is None:
+                ctx.bad(R, key + "|packer-shape", enc.where, "shift counter, its single `+= W` or its `>= 8` reset (with a new byte pushed) not recognised", "shape changed")
+                continue
+            step, lsb_first = hirq.lit_int(hirq.strip(adds[0]["r"])), True
+            if step != W:
+                ctx.bad(R, key + "|packer-step", "%s:%d" % (enc.file, adds[0].get("ln") or 0), "the %d-bit packer advances its shift counter by %d per pixel" % (W, step), "neighbouring pixels overlap or leave gaps in the plane: the unpacker reads other pixels' bits")
+                continue
+        # --- unpacker branch for this depth
+        br = next((n for n in hirq.find(dec.hir["body"], "if") if re.fullmatch(r"\(alpha_bits == %d\)|\(%d == alpha_bits\)" % (W, W), hirq.render(n["c"]))), None)
+        lp = next((l for l in hirq.find(br["then"], "for") if "pixels_mut()" in hirq.render(l["iter"])), None) if br is not None else None
+        if lp is None:
+            ctx.bad(R, key + "|unpacker-shape", dec.where, "branch `alpha_bits == %d` with its pixel loop not found" % W, "shape changed")
+            continue
+        asg = next((a for a in hirq.walk(lp["body"]) if a.get("k") == "assign" and re.search(r"\[3\]$", hirq.render(a["l"]))), None)
+        lets = {l["pat"]["name"]: l["init"] for l in hirq.find(lp["body"], "let") if l["pat"].get("k") == "bind" and l.get("init") is not None}
+        ivar = next((b for b in hirq.pat_binds(lp["pat"]) if b != "pixel"), "i")
+        if asg is None:
+            ctx.bad(R, key + "|unpacker-shape", dec.where, "no assignment to the alpha channel (`..[3] = ..`) in the loop", "shape changed")
+            continue
+        per = 8 // step
+        try:
+            bad = None
+            for pat_ in (0x00, 0xFF, 0xA5, 0x3C):
+                # alpha values per pixel, W bits each, derived from a byte pattern so that neighbours differ
+                vals = [((pat_ >> ((k * 3) % 8)) | (pat_ << (8 - (k * 3) % 8))) & ((1 << W) - 1) for k in range(16)]
+                plane = [0] * (16 // per + 1)
+                for k, v in enumerate(vals):
+                    plane[k // per] |= (v << (step * (k % per))) & 0xFF
+                for k in range(16):
+                    env = {ivar: k, "__ty__": (lambda t_: blp.ty(t_))}
+                    # indexed_alpha[<expr>] : the index is evaluated first, then the byte is looked up in the packed plane
+                    got = _eval_with_plane(asg["r"], env, lets, plane, _ival, _bval)
+                    want = {1: 255 if vals[k] else 0, 4: (vals[k] << 4) | vals[k], 8: vals[k]}[W]
+                    if got != want and bad is None:
+                        bad = (k, pat_, got, want)
+            if bad:
+                ctx.bad(R, key + "|position", "%s:%d" % (dec.file, asg.get("ln") or 0), "pixel %d (plane packed from pattern 0x%02X): the unpacker yields alpha %d, the packed value means %d" % bad,
+                        "the %d-bit alpha plane is read at other bit positions than it is written: decoded alpha belongs to a neighbouring pixel" % W)
+            else:
+                ctx.ok(R, {"depth": W, "packer": "step %d, LSB first, new byte at 8" % step, "unpacker": hirq.render(asg["r"])[:50], "pixels": 16, "patterns": 4})
+        except _NoEval as e:
+            ctx.bad(R, key + "|not-evaluable", "%s:%d" % (dec.file, asg.get("ln") or 0), "alpha expression not evaluable: %s" % e, "shape changed")
+
+
+def _eval_with_plane(expr, env, lets, plane, _ival, _bval):
+    """_ival with `X.indexed_alpha[e]` answered from the packed plane (e evaluated first)"""
+    from .c10 import _NoEval
+    cache = {}
+
+    def leaf(r_):
+        return cache.get(r_)
+    # pre-evaluate every index expression into the plane
+    work = [expr] + list(lets.values())
+    for root in work:
+        for n in hirq.walk(root):
+            if n.get("k") == "index" and "indexed_alpha" in hirq.render(n["e"] if "e" in n else n.get("base") or {}):
+                ix = n.get("i") or n.get("idx") or n.get("index")
+                v = _ival(ix, dict(env), lets)
+                if not 0 <= v < len(plane):
+                    raise _NoEval("plane index %d out of range" % v)
+                cache[hirq.render(n)] = plane[v]
+    e2 = dict(env)
+    e2["__leaf__"] = leaf
+    e = hirq.strip(expr)
+    if e.get("k") == "if":
+        return _ival(e["then"] if _bval(e["c"], e2, lets) else e["else"], e2, lets) & 0xFF
+    return _ival(expr, e2, lets) & 0xFF
+
+
+def _raw3_unpack_rule(ctx, blp):
+    """the RAW3 decoder takes the four channels back out of the word the packer laid them in: for sample words, [r,g,b,a] read by
+    raw3_to_image are the bytes the packer's layout puts there (bits 16..23, 8..15, 0..7, 24..31)"""
+    R = ctx.rule("C16.raw3-unpack-reads-the-packed-layout", "raw3_to_image assigns each pixel [c>>16 & 255, c>>8 & 255, c & 255, c>>24] of its word c (8 sample words; per-channel assignments accepted), with no value-dependent control flow in the loop", floor=1)
+    from .c10 import _ival, _NoEval
+    f = next((x for x in blp.fn_list if x.hir and x.kind != "Closure" and norm(x.path).endswith("convert::raw3::raw3_to_image")), None)
+    if f is None:
+        ctx.bad(R, "raw3_to_image|missing", "-", "function not found", "anchor gone")
+        return
+    ctx.saw_fn(f)
+    lp = next((l for l in hirq.find(f.hir["body"], "for") if "pixels_mut()" in hirq.render(l["iter"])), None)
+    if lp is None:
+        ctx.bad(R, "raw3_to_image|shape", f.where, "no `for .. in ..pixels_mut()` loop found", "shape changed")
+        return
+    ctl = [x for x in hirq.walk(lp["body"]) if x.get("k") in ("if", "match", "continue", "break", "ret") and not x.get("x")]
+    if ctl:
+        ctx.bad(R, "raw3_to_image|value-dependent", "%s:%d" % (f.file, ctl[0].get("ln") or 0), "the per-pixel loop contains `%s`" % hirq.render(ctl[0])[:50], "pixels the condition selects are not decoded as stored")
+        return
+    lets = {l["pat"]["name"]: l["init"] for l in hirq.find(lp["body"], "let") if l["pat"].get("k") == "bind" and l.get("init") is not None}
+    # channel expressions: one array assignment `pixel.0 = [r, g, b, a]` or four indexed assignments `pixel.0[k] = ..` / `pixel[k] = ..`
+    chans = {}
+    for a in hirq.walk(lp["body"]):
+        if a.get("k") != "assign":
+            continue
+        r_ = hirq.strip(a["r"])
+        l_ = hirq.strip(a["l"])
+        if r_.get("k") == "array" and len(r_.get("es") or []) == 4:
+            for k_, e_ in enumerate(r_["es"]):
+                chans[k_] = e_
+        elif l_.get("k") == "index" and hirq.lit_int(hirq.strip(l_.get("i") or l_.get("idx") or {})) is not None:
+            chans[hirq.lit_int(hirq.strip(l_.get("i") or l_.get("idx")))] = a["r"]
+    if sorted(chans) != [0, 1, 2, 3]:
+        ctx.bad(R, "raw3_to_image|shape", f.where, "the four channel assignments were not recognised (%s)" % sorted(chans), "shape changed")
+        return
+    # the word: the local read from `.pixels[..]`
+    word = next((nm for nm, init in lets.items() if re.search(r"\.pixels\[", hirq.render(init))), None)
+    try:
+        bad = None
+        for c in (0x00000000, 0x01020304, 0xFF000000, 0x00FF0000, 0x0000FF00, 0x000000FF, 0x80C0E0F0, 0xFFFFFFFF):
+            env = {"__ty__": (lambda t_: blp.ty(t_))}
+            if word is not None:
+                env[word] = c
+            else:
+                env["__leaf__"] = (lambda r_, c=c: c if re.search(r"\.pixels\[", r_) else None)
+            got = tuple(_ival(chans[k_], env, {k2: v2 for k2, v2 in lets.items() if k2 != word}) & 0xFF for k_ in range(4))
+            want = ((c >> 16) & 255, (c >> 8) & 255, c & 255, (c >> 24) & 255)
+            if got != want and bad is None:
+                bad = (c, got, want)
+        if bad:
+            ctx.bad(R, "raw3_to_image|unpacking", "%s:%d" % (f.file, lp.get("ln") or 0), "word 0x%08X is decoded as rgba %s; the packed layout holds %s" % bad, "channels come back exchanged or shifted: the decoded image differs from the encoded one")
+        else:
+            ctx.ok(R, {"channels": [hirq.render(chans[k_])[:30] for k_ in range(4)], "samples": 8})
+    except _NoEval as e:
+        ctx.bad(R, "raw3_to_image|not-evaluable", f.where, "channel expression not evaluable: %s" % e, "shape changed")
+
+
 def _raw3_pack_rule(ctx, blp):
     """raw BGRA (RAW3) is pixel-exact: the packer lays the four channels of *every* pixel into the 32-bit word, whatever their
     values — no pixel is special-cased (a fully transparent pixel still carries its colour)"""
@@ -203,6 +364,8 @@ def run(ctx):
     R_disp = ctx.rule("C16.content-dispatch-covers-variants", "every BlpContent variant is handled by the encoder and the parser dispatch", floor=2)
     _alpha_depth_rule(ctx, blp)
     _raw3_pack_rule(ctx, blp)
+    _raw3_unpack_rule(ctx, blp)
+    _alpha_plane_rule(ctx, blp)
 
     enc = next((f for f in blp.fn_list if norm(f.path) == "wow_blp::encode::encode_header"), None)
     par = next((f for f in blp.fn_list if norm(f.path) == "wow_blp::parser::header::parse_header"), None)
